@@ -12,6 +12,7 @@ import (
 	"encoding/hex"
 	"fmt"
 	"strings"
+	"time"
 
 	"github.com/makiuchi-d/gozxing"
 	"github.com/makiuchi-d/gozxing/datamatrix"
@@ -630,6 +631,26 @@ func c08RefOK(c *Ctx, refs ...string) bool {
 	return true
 }
 
+// c08HL runs encoder.EncodeHighLevel under a watchdog: the unchanged tree has inputs on which it never
+// returns (D16: the error of a mode encoder is discarded and the dispatch loop spins) — outside C08.
+func c08HL(c *Ctx, txt string, shape encoder.SymbolShapeHint, minSize *gozxing.Dimension) ([]byte, string) {
+	var hl []byte
+	st := SafeT(2*time.Second, func() string {
+		out, e := encoder.EncodeHighLevel(txt, shape, minSize, nil)
+		if e != nil {
+			return "ERR:" + errKind(e)
+		}
+		hl = out
+		return "ok"
+	})
+	if st == "TIMEOUT" {
+		c.Note("public:EncodeHighLevel-TIMEOUT(out of scope, see C02/C12 D16)")
+		c.Remark(fmt.Sprintf("EncodeHighLevel did not return within 2s (not a C08 matter; D16 family): %q", c08Short(txt)))
+		return nil, st
+	}
+	return hl, st
+}
+
 func c08Short(s string) string {
 	if len(s) > 160 {
 		return s[:160] + "..."
@@ -645,7 +666,7 @@ func c08Public(c *Ctx) {
 	syms := encoder.VerifSymbols()
 	w := datamatrix.NewDataMatrixWriter()
 	alph := []string{
-		"ABCDEFGHIJKLMNOPQRSTUVWXYZ", "abcdefghijklmnopqrstuvwxyz", "0123456789", " !\"#$%&'()*+,-./:;<=>?@[\\]^_",
+		"ABCDEFGHIJKLMNOPQRSTUVWXYZ", "abcdefghijklmnopqrstuvwxyz", "0123456789", " !\"#$%&'()*+,-./:;<=>?@[\\]^",
 		"Aa0 Bb1-Cc2/", "*>\rXYZ123",
 	}
 	genText := func(n int) string {
@@ -668,28 +689,25 @@ func c08Public(c *Ctx) {
 		return -1
 	}
 	check := func(contents string, hints map[gozxing.EncodeHintType]interface{}, shape encoder.SymbolShapeHint, minSize *gozxing.Dimension, tag string) {
-		var hl []byte
 		var sidx int
-		pre := Safe(func() string {
-			var e error
-			hl, e = encoder.EncodeHighLevel(contents, shape, minSize, nil)
-			if e != nil {
-				return "ERR:" + errKind(e)
-			}
-			s, e := encoder.SymbolInfo_Lookup(len(hl), shape, minSize, nil, true)
-			if e != nil {
-				return "ERR:" + errKind(e)
-			}
-			sidx = idxOf(s)
-			return "ok"
-		})
+		hl, pre := c08HL(c, contents, shape, minSize)
+		if pre == "ok" {
+			pre = Safe(func() string {
+				s, e := encoder.SymbolInfo_Lookup(len(hl), shape, minSize, nil, true)
+				if e != nil {
+					return "ERR:" + errKind(e)
+				}
+				sidx = idxOf(s)
+				return "ok"
+			})
+		}
 		if pre != "ok" || sidx < 0 {
 			c.Note("public:" + tag + ":" + pre)
 			return
 		}
 		s := syms[sidx]
 		dim := c08Dim(s)
-		g := Safe(func() string {
+		g := SafeT(5*time.Second, func() string {
 			m, e := w.Encode(contents, gozxing.BarcodeFormat_DATA_MATRIX, 0, 0, hints)
 			if e != nil {
 				return "ERR:" + errKind(e)
@@ -751,8 +769,8 @@ func c08Public(c *Ctx) {
 			}
 			for try := 0; try < 8; try++ {
 				txt = genText(n)
-				hl, e := encoder.EncodeHighLevel(txt, shape, nil, nil)
-				if e != nil {
+				hl, st := c08HL(c, txt, shape, nil)
+				if st != "ok" {
 					n = n * 9 / 10
 					if n < 1 {
 						n = 1
@@ -786,8 +804,8 @@ func c08Public(c *Ctx) {
 			gozxing.EncodeHintType_DATA_MATRIX_SHAPE: shape, gozxing.EncodeHintType_MIN_SIZE: dimn}
 		txt := genText(r.Range(1, 3))
 		check(txt, hints, shape, dimn, "minsize")
-		hl, e := encoder.EncodeHighLevel(txt, shape, dimn, nil)
-		if e == nil && len(hl) == s.GetDataCapacity() {
+		hl, st := c08HL(c, txt, shape, dimn)
+		if st == "ok" && len(hl) == s.GetDataCapacity() {
 			// find the first pad (129) after the message: everything after it must be randomised pads
 			first := -1
 			for i, b := range hl {
@@ -819,8 +837,8 @@ func c08Public(c *Ctx) {
 			bs[i] = rune(raw[i])
 		}
 		txt := string(bs)
-		hl, e := encoder.EncodeHighLevel(txt, encoder.SymbolShapeHint_FORCE_NONE, nil, nil)
-		if e != nil || len(hl) < m+2 || hl[0] != 231 {
+		hl, st := c08HL(c, txt, encoder.SymbolShapeHint_FORCE_NONE, nil)
+		if st != "ok" || len(hl) < m+2 || hl[0] != 231 {
 			c.Note("base256:other-structure")
 			continue
 		}
